@@ -62,6 +62,9 @@ Bodies == {
   SetV(FALSE, <<B(<<"a">>, IntV(1)), B(<<"b">>, IntV(2))>>),                                          \* inline, two bindings
   [SetV(TRUE, <<B(<<"a">>, IntV(1))>>) EXCEPT !.dang = <<"L:dangling">>]                               \* comment before the closing brace
 }
+\* bodies for the mapping API (C14): its keys are names as SPELLED in the file, so names that need quoting and
+\* inherited names (readable, but not deletable through the mapping) are left to C12 / C11
+MapBodies == {b \in Bodies : \A i \in 1..Len(b.items) : IsBind(b.items[i]) /\ b.items[i].ap[1] \notin {"a'", "a b"}}
 LayerStacks == {
   <<>>,
   << <<B(<<"u">>, IntV(1))>> >>,
